@@ -54,6 +54,14 @@ def _solve_one(args):
         # expensive python part and runs in parallel this way (the z3 terms are inherited through fork, read-only)
         smt2 = to_smt2(_OBS[idx])
     t0 = time.time()
+    if z3.is_false(_OBS[idx].goal):
+        # a goal that is literally False (a clause that cannot be expressed, an undeclared frame): it holds only on an infeasible path -
+        # a short look, no portfolio
+        s0 = z3.Solver()
+        s0.set('timeout', 5000)
+        s0.from_string(smt2)
+        r0 = s0.check()
+        return idx, ('proved' if r0 == z3.unsat else 'refuted' if r0 == z3.sat else 'undecided'), None, 'z3-api', time.time() - t0
     # attempt 1: products of two unknowns treated as uninterpreted (sound for `unsat`: fewer axioms). Most VCs need
     # only congruence on such products; this avoids the unstable nonlinear engine. Any other answer is discarded.
     r = z3.unknown
